@@ -217,6 +217,13 @@ def check(ctx):
         if by is None or not isinstance(by["_COL"], ast.Name):
             raise AnalysisError(f"{fn.qualname}: importer no longer yields (name, column)")
         COL, NAME = by["_COL"].id, text(by["_NAME"])
+        # the yielded name may be a rendering of the source label (name if isinstance(name, str) else str(name)): the label
+        # the source column is looked up by is the loop variable it is computed from
+        if not isinstance(by["_NAME"], ast.Name):
+            loopvars = {t_.id for lp_ in ast.walk(fn.node) if isinstance(lp_, ast.For) for t_ in ast.walk(lp_.target) if isinstance(t_, ast.Name)}
+            used = sorted({x.id for x in ast.walk(by["_NAME"]) if isinstance(x, ast.Name) and x.id in loopvars})
+            if len(used) == 1:
+                NAME = used[0]
         rec["yield"] = "(NAME, COL)"
 
         def norm_t(t, NA=None):
